@@ -293,6 +293,8 @@ vbi_idl_demux_reset		(vbi_idl_demux *	dx)
 
 	dx->ci = -1;
 	dx->ri = -1;
+
+	dx->flags = 0;
 }
 
 /**
